@@ -353,6 +353,65 @@ def h_hist(R: int, W: int, o0: int, o1: int, o2: int, p0: int, p1: int, p2: int)
     return H.ok()
 
 
+# ------------------------------------------------------------------ the invariant with symbolic cells (symbolically executed, not native)
+SYM_OPS = ['build', 'slice', 'mask', 'lshift', 'rshift', 'sort', 'T', 'setrow', 'setcol', 'left-join', 'arith', 'setattr']
+
+
+def h_rect_sym(a: int, b: int, c: int, d: int, e: int, f: int, n: int, x: int, y: int, lo: int, hi: int, m0: bool, m1: bool, m2: bool) -> bool:
+    """
+    pre: 0 <= n <= 3 and -4 <= lo <= 4 and -4 <= hi <= 4
+    pre: H.fix(n=n)
+    pre: H.cfg('op') == 'slice' or (lo == 0 and hi == 0)
+    pre: H.cfg('op') == 'mask' or (not m0 and not m1 and not m2)
+    post: _
+    """
+    H.reset()
+    if H.skip(locals()): return True
+    op = H.cfg('op')
+    A = H.take([a, b, c], n); B = H.take([d, e, f], n)
+    t = Table({'p': A, 'q': B})
+    why = H.rect(t)
+    if why: return H.fail('constructed table: ' + why)
+    ea, eb = list(A), list(B)        # expected cells
+    if op == 'build': r = t
+    elif op == 'slice': r = t[lo:hi]; ea, eb = A[lo:hi], B[lo:hi]
+    elif op == 'mask':
+        if n == 0: return True
+        bits = H.take([True if m0 else False, True if m1 else False, True if m2 else False], n)
+        r = t[bits]; ea = [v for v, k in zip(A, bits) if k]; eb = [v for v, k in zip(B, bits) if k]
+    elif op == 'lshift': r = t << [x, y]; ea, eb = A + [x], B + [y]
+    elif op == 'rshift':
+        r = t >> Vector(list(B), name='z')
+        if [list(col) for col in r.cols()] != [A, B, B]: return H.fail('>> changed existing cells')
+        ea = eb = None
+    elif op == 'sort':
+        r = t.sort_by('p'); ea = eb = None
+        if sorted(zip(ea or list(r.cols()[0]), list(r.cols()[1]))) != sorted(zip(A, B)): return H.fail('sort lost or split cells')
+    elif op == 'T':
+        r = t.T; ea = eb = None
+        if n and [list(col) for col in r.cols()] != [[A[i], B[i]] for i in range(n)]: return H.fail('transpose cells wrong')
+        if n and [list(col) for col in r.T.cols()] != [A, B]: return H.fail('t.T.T differs from t')
+    elif op == 'setrow':
+        if n == 0: return True
+        t[n - 1] = [x, y]; r = t; ea = A[:-1] + [x]; eb = B[:-1] + [y]
+    elif op == 'setcol':
+        t[:, 'q'] = list(A); r = t; ea, eb = A, list(A)
+    elif op == 'left-join':
+        r = t.join(Table({'k': list(range(n)), 'z': list(B)}), Vector(list(range(n))), 'k') if n else t
+        ea = eb = None
+    elif op == 'arith': r = t + x; ea = [v + x for v in A]; eb = [v + x for v in B]
+    elif op == 'setattr':
+        t.p = Vector(list(B)); r = t; ea, eb = list(B), list(B)
+    else: raise ValueError(op)
+    if not isinstance(r, Table): return H.fail('%s returned %r' % (op, type(r)))
+    why = H.rect(r)
+    if why: return H.fail('%s on %d rows: %s' % (op, n, why))
+    if ea is not None:
+        got = [list(col) for col in r.cols()][:2]
+        if got != [ea, eb] and not (len(ea) == 0 and len(r) == 0): return H.fail('%s: cells %r, expected %r' % (op, got, [ea, eb]))
+    return H.ok()
+
+
 def obligations(tier):
     q = tier == 'quick'
     obs = []
@@ -364,6 +423,13 @@ def obligations(tier):
     for kind in REJECTS:
         obs.append(dict(name='reject[%s]' % kind, fn='h_reject', config={'kind': kind}, budget=90 if q else 300,
                         bounds='receiver 0..3 x 1..3 (incl. zero-row tables), offending length / arity 0..4 at every column position', smoke=[[2, 2, 3, 0], [2, 2, 2, 1], [3, 2, 1, 1]]))
+    for op in SYM_OPS:
+        for n in range(4):
+            if op == 'slice' and n == 0:
+                continue        # covered natively by ctor[slice] on 0-row shapes
+            obs.append(dict(name='rect-symbolic[%s,n=%d]' % (op, n), fn='h_rect_sym', config={'op': op, 'n': n}, budget=90 if q else 300,
+                            bounds='%d rows x 2 columns of unbounded symbolic ints (slice bounds in [-4,4], mask bits, appended row / written row symbolic); symbolically executed (not native)' % n,
+                            smoke=[[1, 2, 3, 4, 5, 6, n, 7, 8, 0, 0, False, False, False]]))
     for o0 in range(len(OPS)):
         obs.append(dict(name='hist[H=2,first=%s]' % OPS[o0], fn='h_hist', config={'o0': o0, 'H': 2}, budget=120 if q else 300,
                         bounds='every start shape 0..3 x 1..3, first operation fixed per job, every second operation of the 16-operation alphabet, 2 parameter values each; '
